@@ -75,6 +75,9 @@ def gen_tlvs(rng, n=None):
     for _ in range(rng.below(4) if n is None else n):
         t = rng.choice([0, 1, 2, 3, 4, 5, 65535])
         v = bytes(rng.choice(b'abcdefghij XYZ-09') for _ in range(rng.choice([0, 1, 5, 40, 300])))
+        if rng.chance(1, 40):
+            # lengths at the top of the u16 range (arithmetic on the length field)
+            v = bytes([rng.choice(b'ab')]) * rng.choice([65531, 65532, 65533, 65535])
         out.append((t, v))
     return out
 
